@@ -1,5 +1,6 @@
 import Cherab.Drv.Proto
 import Cherab.Model.Instruments
+import Cherab.Model.InstrumentMachines
 import Cherab.Gen.InstrumentEdges
 open Cherab.Drv Cherab.Instruments Cherab.Gen.InstrumentEdges
 
@@ -77,6 +78,64 @@ structure CtM where
 structure DSt where
   tab : Option (ClassTable × St) := none
   ctm : Option CtM := none
+  spm : Option (SpState Float) := none
+  plm : Option (PolyState Float) := none
+
+/-! value-level machines of `Spectrometer` (`spm …`) and `Polychromator` (`plm …`), `Model/InstrumentMachines.lean` -/
+
+def showFilt (f : String × PFilter Float) : String := hexEncode f.1 ++ " " ++ fFs [f.2.minW, f.2.maxW, f.2.window]
+
+def showM : MOut Float → String
+  | .done => "done"
+  | .valueError => "ValueError"
+  | .typeError => "TypeError"
+  | .num v => "num " ++ fF v
+  | .int n => "int " ++ toString n
+  | .str t => "str " ++ hexEncode t
+  | .arrays a => "arrays " ++ " ".intercalate (a.map fun r => toString r.length ++ " " ++ fFs r)
+  | .names l => "names " ++ " ".intercalate (l.map hexEncode)
+  | .filters l => "filters " ++ " ".intercalate (l.map showFilt)
+  | .kwargs l => "kwargs " ++ " ".intercalate (l.map fun e => hexEncode e.1 ++ " " ++ showFilt e.2)
+
+/-- `k (flag name min max window)*`; flag 0 = an object that is not a filter -/
+def takeFilters : Nat → List String → List (Option (String × PFilter Float))
+  | 0, _ => []
+  | k + 1, fl :: nm :: a :: b :: c :: rest =>
+    (if fl == "1" then some (hexDecode nm, ⟨pF a, pF b, pF c⟩) else none) :: takeFilters k rest
+  | _, _ => []
+
+def parseSpOp (ts : List String) : Option (SpOp Float) :=
+  match ts with
+  | "setW2p" :: k :: rest => some (.setW2p (takeArrays (pN k) rest))
+  | ["setMbpp", v] => some (.setMbpp (pI v))
+  | ["setName", v] => some (.setName (hexDecode v))
+  | ["getMin"] => some .getMin
+  | ["getMax"] => some .getMax
+  | ["getBins"] => some .getBins
+  | ["getW2p"] => some .getW2p
+  | ["getWavelengths"] => some .getWavelengths
+  | ["getMbpp"] => some .getMbpp
+  | ["getName"] => some .getName
+  | ["getClasses"] => some .getClasses
+  | ["getKwargs"] => some .getKwargs
+  | ["calib", dens, smin, smax] => some (.calibrate (fun a b => pF dens * (b - a)) (pF smin) (pF smax))
+  | _ => none
+
+def parsePolyOp (ts : List String) : Option (PolyOp Float) :=
+  match ts with
+  | "setFilters" :: k :: rest => some (.setFilters (takeFilters (pN k) rest))
+  | ["setMbpw", v] => some (.setMbpw (pI v))
+  | ["setName", v] => some (.setName (hexDecode v))
+  | ["getMin"] => some .getMin
+  | ["getMax"] => some .getMax
+  | ["getBins"] => some .getBins
+  | ["getFilters"] => some .getFilters
+  | ["getMbpw"] => some .getMbpw
+  | ["getName"] => some .getName
+  | ["getClasses"] => some .getClasses
+  | ["getKwargs"] => some .getKwargs
+  | ["createPipelines"] => some .createPipelines
+  | _ => none
 
 def extOf (trig : List (Float × Float × Float)) : CTExt Float :=
   { sqrt := Float.sqrt,
@@ -128,6 +187,20 @@ def step (σ : DSt) (ts : List String) : DSt × String :=
       let r := ctStep (extOf trig) m.s op
       ({ σ with ctm := some ⟨r.1, trig⟩ }, showOut r.2)
     | _, _ => (σ, "bad-ctm")
+  | "spm" :: "new" :: mbpp :: nm :: k :: rest =>
+    (match spInit (takeArrays (pN k) rest) (pI mbpp) (hexDecode nm) with
+     | some s => ({ σ with spm := some s }, "done")
+     | none => ({ σ with spm := none }, "ValueError"))
+  | "spm" :: rest => (match σ.spm, parseSpOp rest with
+    | some m, some op => let r := spStep ceilF m op; ({ σ with spm := some r.1 }, showM r.2)
+    | _, _ => (σ, "bad-spm"))
+  | "plm" :: "new" :: mbpw :: nm :: k :: rest =>
+    (match polyInit (takeFilters (pN k) rest) (pI mbpw) (hexDecode nm) with
+     | .inl s => ({ σ with plm := some s }, "done")
+     | .inr e => ({ σ with plm := none }, showM e))
+  | "plm" :: rest => (match σ.plm, parsePolyOp rest with
+    | some m, some op => let r := polyStep ⟨ceilF, infF⟩ m op; ({ σ with plm := some r.1 }, showM r.2)
+    | _, _ => (σ, "bad-plm"))
   | ["new", cls] => match findTable cls with
     | none => ({ σ with tab := none }, "no-table")
     | some t => let r := construct t; ({ σ with tab := some (t, (r.state?).getD t.blank) }, showRes t r)
